@@ -26,6 +26,7 @@ structure ProcIterOK (σ : Leaves) (reg : Nat → Option (List Row)) (t : Rel) (
   temp : s'.nextTemp = s.nextTemp
   mono : PayMono s.st s'.st
   new : PayNew t s.st s'.st
+  keep : PayKeep s.st s'.st
 
 theorem payloadOf_free (s : ProcState) (r : Rel) (h : s.sq.payload r.oid = none) :
     s.payloadOf r = match r with
@@ -48,9 +49,9 @@ theorem sqFree_oid (sq : SqlState) : (r : Rel) → r.sqFree sq → r.procFlag = 
 direct evaluation as a row sequence, logs one hook call, and leaves the payload store right. -/
 theorem hookMaterialize_iter (σ : Leaves) (reg : Nat → Option (List Row)) (t : Rel) (name : String) (s : ProcState)
     (hk : t.engine.kind = .iter) (hio : t.IterOKs s.st) (hwf : t.WF) (htr : t.Truthful σ) (hkd : keyDetermined σ t = true)
-    (hreg : t.RegOK σ reg) (hs : StoreOK σ reg s.st) :
+    (hreg : t.RegOK σ reg) (hs : StoreOK σ reg s.st) (hac : t.Acyclic) :
     ∃ s', (hookMaterialize σ t name) s = (.ok (.iter (.seq (sem σ t))), s') ∧ StoreOK σ reg s'.st ∧
-      s'.sq = s.sq ∧ s'.nextTemp = s.nextTemp ∧ PayMono s.st s'.st ∧ PayNew t s.st s'.st := by
+      s'.sq = s.sq ∧ s'.nextTemp = s.nextTemp ∧ PayMono s.st s'.st ∧ PayNew t s.st s'.st ∧ PayKeep s.st s'.st := by
   obtain ⟨it, st', h1, h2, h3, h4, h5⟩ : ∃ it st', exec σ t.engine t { s.st with log := [] } = .ok (it, st') ∧
       it.rows σ = .ok (sem σ t) ∧ StoreOK σ reg st' ∧ PayMono s.st st' ∧ PayNew t s.st st' := by
     have hm0 : PayMono s.st { s.st with log := [] } := PayMono.of_payloads_eq rfl
@@ -64,7 +65,9 @@ theorem hookMaterialize_iter (σ : Leaves) (reg : Nat → Option (List Row)) (t 
     StateT.get, set, StateT.set, modify, modifyGet, MonadStateOf.modifyGet, StateT.modifyGet, MonadState.modifyGet,
     liftM, monadLift, MonadLift.monadLift, ExceptT.lift, pure,
     ExceptT.pure, StateT.pure, Functor.map, StateT.map, hk, h1, h2]
-  exact ⟨_, rfl, h3.of_payloads_eq rfl, rfl, rfl, fun o ho => h4 o ho, fun o ho => h5 o ho⟩
+  have hfr := exec_frame σ t t.engine _ it st' hac h1
+  exact ⟨_, rfl, h3.of_payloads_eq rfl, rfl, rfl, fun o ho => h4 o ho, fun o ho => h5 o ho,
+    fun o p hp => hfr.mono o p hp⟩
 
 theorem payloadThrough_some (s : ProcState) (p : AnyPayload) : (t : Rel) → s.payloadOf t = some p →
     payloadThrough s t = some p
@@ -106,35 +109,35 @@ theorem cached_payload_rows (σ : Leaves) (reg : Nat → Option (List Row)) (s :
 theorem process_plain_iter (σ : Leaves) (reg : Nat → Option (List Row)) (e : Engine) (hek : e.kind = .iter) :
     (t : Rel) → (fuel : Nat) → (matAs : Option String) → (s : ProcState) →
     t.PlainIter e → t.IterOK → t.WF → t.Truthful σ → keyDetermined σ t = true → t.RegOK σ reg →
-    StoreOK σ reg s.st → t.sqFree s.sq → t.size ≤ fuel →
+    StoreOK σ reg s.st → t.sqFree s.sq → t.Acyclic → t.size ≤ fuel →
     ∃ s', (processRec σ fuel t matAs).run.run s = (.ok (.same, t.procFlag), s') ∧ ProcIterOK σ reg t s s'
-  | .leaf oid le cols nm mn mx pl ms, fuel, matAs, s, hp, hio, hwf, htr, hkd, hreg, hs, hq, hf => by
+  | .leaf oid le cols nm mn mx pl ms, fuel, matAs, s, hp, hio, hwf, htr, hkd, hreg, hs, hq, hac, hf => by
     cases fuel with
     | zero => simp [Rel.size] at hf
     | succ n =>
       have hpl : pl = true := hio
       have hc : (s.payloadOf (Rel.leaf oid le cols nm mn mx pl ms)).isSome = true := by
         rw [payloadOf_free s (Rel.leaf oid le cols nm mn mx pl ms) hq]; simp [hpl]
-      refine ⟨s, ?_, hs, rfl, fun _ => hc, rfl, PayMono.refl _, PayNew.refl _ _⟩
+      refine ⟨s, ?_, hs, rfl, fun _ => hc, rfl, PayMono.refl _, PayNew.refl _ _, PayKeep.refl _⟩
       unfold processRec
       simp [bind, ExceptT.bind, ExceptT.mk, ExceptT.bindCont, StateT.bind, get, getThe, MonadStateOf.get, StateT.get,
         liftM, monadLift, MonadLift.monadLift, ExceptT.lift, ExceptT.run, StateT.run, hc, pure, ExceptT.pure,
         StateT.pure, Functor.map, StateT.map, Rel.procFlag]
-  | .unary op t c, fuel, matAs, s, hp, hio, hwf, htr, hkd, hreg, hs, hq, hf => by
+  | .unary op t c, fuel, matAs, s, hp, hio, hwf, htr, hkd, hreg, hs, hq, hac, hf => by
     cases fuel with
     | zero => simp [Rel.size] at hf
     | succ n =>
       have hkd' : keyDetermined σ t = true := by
         simp only [keyDetermined, Bool.and_eq_true] at hkd; exact hkd.1
-      obtain ⟨s', ih, P⟩ := process_plain_iter σ reg e hek t n none s hp hio.1 hwf.1 htr hkd' hreg hs hq
+      obtain ⟨s', ih, P⟩ := process_plain_iter σ reg e hek t n none s hp hio.1 hwf.1 htr hkd' hreg hs hq hac
         (by simp [Rel.size] at hf; omega)
       simp only [ExceptT.run, StateT.run] at ih
-      refine ⟨s', ?_, P.store, P.sq, fun h => by simp [Rel.procFlag] at h, P.temp, P.mono, P.new⟩
+      refine ⟨s', ?_, P.store, P.sq, fun h => by simp [Rel.procFlag] at h, P.temp, P.mono, P.new, P.keep⟩
       unfold processRec
       simp [bind, ExceptT.bind, ExceptT.mk, ExceptT.bindCont, StateT.bind, get, getThe, MonadStateOf.get, StateT.get,
         liftM, monadLift, MonadLift.monadLift, ExceptT.lift, ExceptT.run, StateT.run, pure, ExceptT.pure, StateT.pure,
         Functor.map, StateT.map, ProcState.payloadOf, ih, Rel.procFlag]
-  | .binary op l r c, fuel, matAs, s, hp, hio, hwf, htr, hkd, hreg, hs, hq, hf => by
+  | .binary op l r c, fuel, matAs, s, hp, hio, hwf, htr, hkd, hreg, hs, hq, hac, hf => by
     cases fuel with
     | zero => simp [Rel.size] at hf
     | succ n =>
@@ -143,13 +146,14 @@ theorem process_plain_iter (σ : Leaves) (reg : Nat → Option (List Row)) (e : 
       simp only [keyDetermined, Bool.and_eq_true] at hkd
       cases op with
       | chain =>
-        obtain ⟨s1, ih1, P1⟩ := process_plain_iter σ reg e hek l n none s hpl hil hwf.1 htr.1 hkd.1 hreg.1 hs hq.1
+        obtain ⟨s1, ih1, P1⟩ := process_plain_iter σ reg e hek l n none s hpl hil hwf.1 htr.1 hkd.1 hreg.1 hs hq.1 hac.1
           (by simp [Rel.size] at hf; omega)
         obtain ⟨s2, ih2, P2⟩ := process_plain_iter σ reg e hek r n none s1 hpr hir hwf.2.1 htr.2 hkd.2 hreg.2
-          P1.store (by rw [P1.sq]; exact hq.2) (by simp [Rel.size] at hf; omega)
+          P1.store (by rw [P1.sq]; exact hq.2) hac.2 (by simp [Rel.size] at hf; omega)
         simp only [ExceptT.run, StateT.run] at ih1 ih2
         refine ⟨s2, ?_, P2.store, by rw [P2.sq, P1.sq], fun h => by simp [Rel.procFlag] at h, by rw [P2.temp, P1.temp], P1.mono.trans P2.mono,
-          PayNew.trans P1.new P2.new (fun _ h => by simp [Rel.matOids, h]) (fun _ h => by simp [Rel.matOids, h])⟩
+          PayNew.trans P1.new P2.new (fun _ h => by simp [Rel.matOids, h]) (fun _ h => by simp [Rel.matOids, h]),
+          P1.keep.trans P2.keep⟩
         unfold processRec
         simp [bind, ExceptT.bind, ExceptT.mk, ExceptT.bindCont, StateT.bind, get, getThe, MonadStateOf.get,
           StateT.get, liftM, monadLift, MonadLift.monadLift, ExceptT.lift, ExceptT.run, StateT.run, pure,
@@ -157,9 +161,9 @@ theorem process_plain_iter (σ : Leaves) (reg : Nat → Option (List Row)) (e : 
           Rel.procFlag]
       | join j => cases hop
       | ignoreOne b => cases hop
-  | .transfer .., _, _, _, hp, _, _, _, _, _, _, _, _ => by cases hp
-  | .select .., _, _, _, hp, _, _, _, _, _, _, _, _ => by cases hp
-  | .mat oid name target, fuel, matAs, s, hp, hio, hwf, htr, hkd, hreg, hs, hq, hf => by
+  | .transfer .., _, _, _, hp, _, _, _, _, _, _, _, _, _ => by cases hp
+  | .select .., _, _, _, hp, _, _, _, _, _, _, _, _, _ => by cases hp
+  | .mat oid name target, fuel, matAs, s, hp, hio, hwf, htr, hkd, hreg, hs, hq, hac, hf => by
     cases fuel with
     | zero => simp [Rel.size] at hf
     | succ n =>
@@ -170,7 +174,7 @@ theorem process_plain_iter (σ : Leaves) (reg : Nat → Option (List Row)) (e : 
         -- already materialized
         have hcached : (s.payloadOf (Rel.mat oid name target)).isSome = true := by
           rw [payloadOf_free s (Rel.mat oid name target) hq.1]; simp [Rel.oid, hc]
-        refine ⟨s, ?_, hs, rfl, fun _ => hcached, rfl, PayMono.refl _, PayNew.refl _ _⟩
+        refine ⟨s, ?_, hs, rfl, fun _ => hcached, rfl, PayMono.refl _, PayNew.refl _ _, PayKeep.refl _⟩
         unfold processRec
         simp [bind, ExceptT.bind, ExceptT.mk, ExceptT.bindCont, StateT.bind, get, getThe, MonadStateOf.get,
           StateT.get, liftM, monadLift, MonadLift.monadLift, ExceptT.lift, ExceptT.run, StateT.run, hcached, pure,
@@ -179,14 +183,21 @@ theorem process_plain_iter (σ : Leaves) (reg : Nat → Option (List Row)) (e : 
         have hnc : (s.payloadOf (Rel.mat oid name target)).isSome = false := by
           rw [payloadOf_free s (Rel.mat oid name target) hq.1]; simp [Rel.oid, hc]
         obtain ⟨s1, ih, P1⟩ := process_plain_iter σ reg e hek target n (some name) s hpt hio hwf htr hkd' hreg.2 hs hq.2
-          (by simp [Rel.size] at hf; omega)
+          hac.2 (by simp [Rel.size] at hf; omega)
         simp only [ExceptT.run, StateT.run] at ih
         have hattach : ∀ (s2 : ProcState) (it : Iterable), StoreOK σ reg s2.st → s2.sq = s.sq →
-            s2.nextTemp = s.nextTemp → PayMono s.st s2.st → PayNew target s.st s2.st → ItOK it →
+            s2.nextTemp = s.nextTemp → PayMono s.st s2.st → PayNew target s.st s2.st → PayKeep s.st s2.st → ItOK it →
             it.rows σ = .ok (sem σ target) →
             ProcIterOK σ reg (Rel.mat oid name target) s (s2.attach oid (.iter it)) := by
-          intro s2 it h2 hq2 ht2 hm2 hn2 hi hr
-          refine ⟨?_, hq2, fun _ => ?_, ht2, ?_, ?_⟩
+          intro s2 it h2 hq2 ht2 hm2 hn2 hk2 hi hr
+          have hnone2 : s2.st.payload oid = none := by
+            cases hp2 : s2.st.payload oid with
+            | none => rfl
+            | some p =>
+              rcases hn2 oid (by simp [hp2]) with h | h
+              · rw [hc] at h; cases h
+              · exact absurd h hac.1
+          refine ⟨?_, hq2, fun _ => ?_, ht2, ?_, ?_, hk2.trans (PayKeep.cons s2.st oid it s2.st.evals hnone2)⟩
           · exact StoreOK.cons h2 oid it (sem σ target) hi hreg.1 hr
           · simp [ProcState.attach, ProcState.payloadOf, Rel.oid, ExecState.payload]
           · exact hm2.trans (PayMono.cons s2.st oid it s2.st.evals)
@@ -210,7 +221,7 @@ theorem process_plain_iter (σ : Leaves) (reg : Nat → Option (List Row)) (e : 
           | some p =>
             obtain ⟨it, hpit, hi, hr⟩ := cached_payload_rows σ reg s1 e P1.store target (by rw [P1.sq]; exact hq.2) hpt hreg.2 hfl p hpo
             subst hpit
-            refine ⟨s1.attach oid (.iter it), ?_, hattach s1 it P1.store P1.sq P1.temp P1.mono P1.new hi hr⟩
+            refine ⟨s1.attach oid (.iter it), ?_, hattach s1 it P1.store P1.sq P1.temp P1.mono P1.new P1.keep hi hr⟩
             unfold processRec
             simp [hfl, hnc, ih, Res.get, bind, ExceptT.bind, ExceptT.mk, ExceptT.bindCont, StateT.bind, get, getThe,
               MonadStateOf.get, StateT.get, modify, modifyGet, MonadStateOf.modifyGet, StateT.modifyGet,
@@ -223,7 +234,7 @@ theorem process_plain_iter (σ : Leaves) (reg : Nat → Option (List Row)) (e : 
               joinIdentity_sound σ target hwf htr
                 (by simpa [Rel.isJoinIdentity, Rel.columns, Rel.maxRows, Rel.minRows] using hji)
             refine ⟨s1.attach oid (.iter (.mapping [] [Row.empty])), ?_,
-              hattach s1 _ P1.store P1.sq P1.temp P1.mono P1.new (by simp [ItOK]) (by rw [hsem]; rfl)⟩
+              hattach s1 _ P1.store P1.sq P1.temp P1.mono P1.new P1.keep (by simp [ItOK]) (by rw [hsem]; rfl)⟩
             unfold processRec
             simp [hfl, hnc, ih, hji, hek', trivialPayload, Res.get, bind, ExceptT.bind, ExceptT.mk, ExceptT.bindCont,
               StateT.bind, get, getThe, MonadStateOf.get, StateT.get, modify, modifyGet, MonadStateOf.modifyGet,
@@ -234,7 +245,7 @@ theorem process_plain_iter (σ : Leaves) (reg : Nat → Option (List Row)) (e : 
               have hsem : sem σ target = [] :=
                 maxRows_zero_sound σ target hwf htr (by simpa [Rel.maxRows] using hmz)
               refine ⟨s1.attach oid (.iter (.mapping [] [])), ?_,
-                hattach s1 _ P1.store P1.sq P1.temp P1.mono P1.new (by simp [ItOK]) (by rw [hsem]; rfl)⟩
+                hattach s1 _ P1.store P1.sq P1.temp P1.mono P1.new P1.keep (by simp [ItOK]) (by rw [hsem]; rfl)⟩
               unfold processRec
               simp [hfl, hnc, ih, hji, hmz, hek', trivialPayload, Res.get, bind, ExceptT.bind, ExceptT.mk,
                 ExceptT.bindCont, StateT.bind, get, getThe, MonadStateOf.get, StateT.get, modify, modifyGet,
@@ -242,11 +253,11 @@ theorem process_plain_iter (σ : Leaves) (reg : Nat → Option (List Row)) (e : 
                 MonadLift.monadLift, ExceptT.lift, ExceptT.run, StateT.run, pure, ExceptT.pure, StateT.pure,
                 Functor.map, StateT.map]
             · -- the hook evaluates the target
-              obtain ⟨s2, hh, h2, hsq, hnt, hm2, hn2⟩ := hookMaterialize_iter σ reg target name s1 hek'
-                (IterOKs.of_iterOK _ target hio) hwf htr hkd' hreg.2 P1.store
+              obtain ⟨s2, hh, h2, hsq, hnt, hm2, hn2, hk2⟩ := hookMaterialize_iter σ reg target name s1 hek'
+                (IterOKs.of_iterOK _ target hio) hwf htr hkd' hreg.2 P1.store hac.2
               refine ⟨s2.attach oid (.iter (.seq (sem σ target))), ?_,
                 hattach s2 _ h2 (by rw [hsq, P1.sq]) (by rw [hnt, P1.temp]) (P1.mono.trans hm2)
-                  (PayNew.trans P1.new hn2 (fun _ h => h) (fun _ h => h)) trivial rfl⟩
+                  (PayNew.trans P1.new hn2 (fun _ h => h) (fun _ h => h)) (P1.keep.trans hk2) trivial rfl⟩
               unfold processRec
               simp [hfl, hnc, ih, hji, hmz, hh, Res.get, bind, ExceptT.bind, ExceptT.mk, ExceptT.bindCont, StateT.bind,
                 get, getThe, MonadStateOf.get, StateT.get, modify, modifyGet, MonadStateOf.modifyGet,
@@ -266,11 +277,12 @@ materializations), `Processor.process` returns the tree itself, and executing it
 of the direct evaluation. -/
 theorem process_then_execute (σ : Leaves) (reg : Nat → Option (List Row)) (e : Engine) (hek : e.kind = .iter)
     (t : Rel) (st : ExecState) (hp : t.PlainIter e) (hio : t.IterOK) (hwf : t.WF) (htr : t.Truthful σ)
-    (hkd : keyDetermined σ t = true) (hreg : t.RegOK σ reg) (hs : StoreOK σ reg st) (hf : t.size ≤ defaultFuel) :
+    (hkd : keyDetermined σ t = true) (hreg : t.RegOK σ reg) (hs : StoreOK σ reg st) (hac : t.Acyclic)
+    (hf : t.size ≤ defaultFuel) :
     ∃ ps, processTop σ st {} t = (.ok .same, ps) ∧
       ∃ it s', exec σ t.engine t ps.st = .ok (it, s') ∧ it.rows σ = .ok (sem σ t) := by
   obtain ⟨s', h, P⟩ := process_plain_iter σ reg e hek t defaultFuel none { st := st, sq := {} } hp hio hwf htr hkd
-    hreg hs (sqFree_empty t) hf
+    hreg hs (sqFree_empty t) hac hf
   refine ⟨s', ?_, ?_⟩
   · unfold processTop
     simp only [ExceptT.run, StateT.run] at h ⊢
